@@ -39,6 +39,7 @@ def build(spec):
     """
     I = Instance()
     I.spec = spec
+    I.shared_profiles = {}
     now = spec["now"]
     pools_spec = spec.get("pools") or [spec["workers"]]
     pools, I.workers = [], []
@@ -60,14 +61,20 @@ def build(spec):
         for tn in g["tasks"]:
             tp = spec["tasks"][tn]
             strats, sp = [], []
-            for (rt, dem) in tp["strategies"]:
+            shared = tp.get("profile")  # tasks that name the same profile share ONE WorkProfile and its ExecutionStrategy objects (requests of one model)
+            if shared and shared in I.shared_profiles:
+                prof, strats, sp = I.shared_profiles[shared]
+            for (rt, dem) in ([] if strats else tp["strategies"]):
                 res = {"CPU": dem} if isinstance(dem, int) else dict(dem)
                 # runtime_in_ms: the same runtime written in milliseconds (rt is a multiple of 1000 us)
                 rtime = EventTime(rt // 1000, EventTime.Unit.MS) if tp.get("runtime_in_ms") and rt % 1000 == 0 else ET(rt)
                 strats.append(ExecutionStrategy(resources=Resources({Resource(name=rn, _id="any"): q for rn, q in res.items()}, _logger=NULL),
                                                 batch_size=1, runtime=rtime))
                 sp.append((rt, res))
-            prof = WorkProfile(name=tn + "_p", execution_strategies=ExecutionStrategies(strats))
+            if not (shared and shared in I.shared_profiles):
+                prof = WorkProfile(name=(shared or tn) + "_p", execution_strategies=ExecutionStrategies(strats))
+                if shared:
+                    I.shared_profiles[shared] = (prof, strats, sp)
             is_src = not parents[tn]
             rel = tp.get("release", 0 if is_src else -1)
             t = Task(name=tn, task_graph=g["name"], job=Job(name=tn, profile=prof), deadline=ET(tp["deadline"]), timestamp=0,
